@@ -241,3 +241,134 @@ def gen_loops():
 if __name__ == '__main__':
     t, d = gen_loops()
     print(t['ClipLoopsDefs'])
+
+
+# ------------------------------------------------------------------ per-iteration evaluation budget
+OPT_FILES = ['abc', 'aiwpso', 'ba', 'bha', 'cs', 'fa', 'fpa', 'gp', 'gsa', 'hc', 'hs', 'ihs',
+             'pso', 'rpso', 'sa', 'sca', 'wca']
+
+
+def _classes():
+    out = {}
+    for fl in OPT_FILES + ['../core/optimizer']:
+        path = os.path.normpath(f'{REPO}/opytimizer/optimizers/{fl}.py')
+        try:
+            t = ast.parse(open(path).read())
+        except OSError:
+            continue
+        for c in t.body:
+            if isinstance(c, ast.ClassDef):
+                out[c.name] = (c, [ast.unparse(b) for b in c.bases])
+    return out
+
+
+def _resolve(classes, cname, mname):
+    seen = set()
+    while cname in classes and cname not in seen:
+        seen.add(cname)
+        cls, bases = classes[cname]
+        for f in cls.body:
+            if isinstance(f, ast.FunctionDef) and f.name == mname:
+                return cname, f
+        cname = next((b.split('.')[-1] for b in bases if b.split('.')[-1] in classes), None)
+    return None, None
+
+
+def _loop_factor(st):
+    """how often the body of a loop statement runs, as a Factor term"""
+    if isinstance(st, ast.While):
+        return f'(.whileLoop {lean_str(ast.unparse(st.test)[:50])})'
+    it = ast.unparse(st.iter)
+    for pat in ('agents', 'space.agents', 'enumerate(agents)', 'enumerate(space.agents)', 'nests', 'enumerate(nests)',
+                'new_agents', 'enumerate(new_agents)', 'range(len(agents))', 'range(len(space.agents))',
+                'range(space.n_agents)', 'space.trees', 'enumerate(space.trees)', 'enumerate(zip(space.trees, space.agents))',
+                'zip(space.trees, space.agents)', 'enumerate(zip(agents, new_agents))', 'zip(agents, new_agents)'):
+        if it == pat:
+            return '.agents'
+    return f'(.other {lean_str(it[:50])})'
+
+
+def eval_terms(classes, cname, mname, stack=(), depth=0):
+    """[(site function, [factors])] for every objective call reachable from Class.method"""
+    owner, fn = _resolve(classes, cname, mname)
+    if fn is None or depth > 4 or (owner, mname) in stack:
+        return []
+    out = []
+
+    def walk(block, factors):
+        for st in block:
+            # objective calls in this statement (not inside nested statements: those are visited below)
+            own_exprs = []
+            if isinstance(st, (ast.For, ast.While, ast.If, ast.With, ast.Try)):
+                own_exprs = [st.iter] if isinstance(st, ast.For) else [st.test] if isinstance(st, (ast.While, ast.If)) else []
+            else:
+                own_exprs = [st]
+            for ex in own_exprs:
+                for n in ast.walk(ex):
+                    if isinstance(n, ast.Call):
+                        f = ast.unparse(n.func)
+                        if f in ('function.pointer', 'function', 'self.function.pointer'):
+                            out.append((f'{owner}.{mname}', list(factors)))
+                        elif f.startswith('self.') and f.count('.') == 1:
+                            for site, fs in eval_terms(classes, cname, f.split('.')[1], stack + ((owner, mname),), depth + 1):
+                                out.append((site, list(factors) + fs))
+            if isinstance(st, (ast.For, ast.While)):
+                walk(st.body, factors + [_loop_factor(st)])
+                walk(st.orelse, factors)
+            elif isinstance(st, ast.If):
+                walk(st.body, factors)
+                walk(st.orelse, factors)
+            elif isinstance(st, (ast.With,)):
+                walk(st.body, factors)
+            elif isinstance(st, ast.Try):
+                walk(st.body, factors)
+                for h in st.handlers:
+                    walk(h.body, factors)
+                walk(st.orelse, factors)
+                walk(st.finalbody, factors)
+    walk(fn.body, [])
+    return out
+
+
+def extract_budgets():
+    classes = _classes()
+    out = []
+    for fl in OPT_FILES:
+        k = fl.upper()
+        if k not in classes:
+            out.append((k, [('missing', [])], [('missing', [])]))
+            continue
+        out.append((k, eval_terms(classes, k, '_update'), eval_terms(classes, k, '_evaluate')))
+    return out
+
+
+_old_gen_loops2 = gen_loops
+
+
+def gen_loops():
+    texts, data = _old_gen_loops2()
+    bud = extract_budgets()
+    term = lambda site, fs: f'{{ site := {lean_str(site)}, factors := [' + ', '.join(fs) + '] }'
+    D = ['-- GENERATED by harness/translate_loops.py from the _update / _evaluate methods of the optimizers. Do not edit.',
+         'import OpyVerif.Model.Budget', 'namespace Opy.Gen', 'open Opy', '',
+         '/-- for every optimizer: the objective call sites reachable from `_update` (through calls on `self`), each with',
+         '    the loop nest around it; and the same for `_evaluate` (the sweep) -/',
+         'def evalTerms : List (String × List EvalTerm × List EvalTerm) := [']
+    D.append(',\n'.join(f'  ({lean_str(k)}, [' + ', '.join(term(s, f) for s, f in up) + '], [' + ', '.join(term(s, f) for s, f in ev) + '])'
+                        for k, up, ev in bud))
+    D += [']', '', 'end Opy.Gen', '']
+    T = ['-- GENERATED by harness/translate_loops.py: obligations re-decided on every build. Do not edit.',
+         'import OpyVerif.Generated.BudgetDefs', 'namespace Opy.Gen', 'open Opy',
+         '/-- the objective call sites of every optimizer and the loops around them are the ones the budget theorems',
+         '    of `Proofs/Budget.lean` are stated for -/',
+         'theorem evalTerms_eq : evalTerms = Expected.evalTerms := by decide +kernel',
+         'end Opy.Gen', '']
+    texts['BudgetDefs'] = '\n'.join(D)
+    texts['Budget'] = '\n'.join(T)
+    data['budgets'] = bud
+    return texts, data
+
+
+if __name__ == '__main__':
+    t, d = gen_loops()
+    print(t['BudgetDefs'])
